@@ -130,5 +130,5 @@ pub fn props() -> Vec<Box<dyn DynProp>> {
 
 pub fn run(ctx: &mut Ctx) {
     let q = ctx.quick();
-    ctx.run(&TypeChecks, &Params::new(if q { 800 } else { 40_000 }, 200, 3000).shrink(150));
+    ctx.run(&TypeChecks, &Params::new(if q { 4000 } else { 120_000 }, 200, 3000).shrink(150));
 }
